@@ -13,6 +13,12 @@ A case is a dict:
   order    None or a permutation of the candidates given as Contest(order=...) (search hint)
   second   True: the same Contest / cvrs objects were first used for a call with another winner
   log      True: the call is made with log=True and a string sink as stream
+  before   calls made immediately before, in the same process (state must not leak between calls):
+           {'kind': 'other_cvrs', types, tot, winner, bp}   same contest id and candidate ids, other CVRs
+           {'kind': 'other_fn'}                              same Contest and cvrs objects, the other difficulty function
+           {'kind': 'other_winner', winner}                  same objects, another reported winner
+           {'kind': 'other_contest', winner, bp}             the second IRV contest 'c2' carried by the same cards (c2types)
+  c2types  ballot types of a second IRV contest 'c2' (same candidate ids) placed on the same cards
   impl     {'out': [(kind, w, l, elim|None, votes_for_winner, votes_for_loser, difficulty)] | None, 'exc': str|None,
             'objs': the returned assertion objects (not serialised), 'cvrs': the CVR dict given to the code}
 """
@@ -224,6 +230,11 @@ def build_inputs(case, rng=None):
             if i % 5 == 0:
                 rec["other"] = {names[-1]: 0, names[0]: 1}    # another contest on the same card is ignored
             cvrs[f"b{i}"] = rec
+    items2 = []
+    for b, k in case.get("c2types") or []:
+        items2 += [b] * k
+    for (bid, rec), b in zip(cvrs.items(), items2):       # a second IRV contest with the same candidate ids on the same cards
+        rec["c2"] = {names[c]: pos for pos, c in enumerate(b)}
     order = [names[c] for c in case["order"]] if case.get("order") is not None else []
     contest = U.Contest(CONTEST, list(names), names[case["winner"]], case["tot"], order=order)
     return contest, cvrs
@@ -259,16 +270,47 @@ def canon(result, names):
     return out
 
 
+def asn_fn(bp, exact):
+    _, _, S = R()
+    if exact:
+        return bp_frac if bp else cp_frac
+    return S.bp_estimate if bp else S.cp_estimate
+
+
+CALLS = {"n": 0}      # number of cases already run in this process (recorded with each case)
+
+
+def run_before(case, contest, cvrs):
+    """The calls of case['before'], in order, results discarded."""
+    Rm, U, _ = R()
+    names = case["names"]
+    for b in case.get("before") or []:
+        k = b["kind"]
+        if k == "other_cvrs":
+            c2 = dict(case, types=b["types"], nocontest=0, tot=b["tot"], winner=b["winner"], order=None, c2types=None)
+            ct, cv = build_inputs(c2)
+            Rm.compute_raire_assertions(ct, cv, names[b["winner"]], asn_fn(b["bp"], case["exact"]), False, agap=0)
+        elif k == "other_fn":
+            Rm.compute_raire_assertions(contest, cvrs, names[case["winner"]], asn_fn(not case["bp"], case["exact"]), False, agap=0)
+        elif k == "other_winner":
+            Rm.compute_raire_assertions(contest, cvrs, names[b["winner"]], asn_fn(case["bp"], case["exact"]), False, agap=0)
+        elif k == "other_contest":
+            n2 = sum(kk for _, kk in case.get("c2types") or [])
+            ct = U.Contest("c2", list(names), names[b["winner"]], max(1, n2))
+            Rm.compute_raire_assertions(ct, cvrs, names[b["winner"]], asn_fn(b["bp"], case["exact"]), False, agap=0)
+        else:
+            raise ValueError(k)
+
+
 def run_impl(case, rng=None):
     Rm, U, S = R()
     contest, cvrs = build_inputs(case, rng)
-    if case["exact"]:
-        fn = bp_frac if case["bp"] else cp_frac
-    else:
-        fn = S.bp_estimate if case["bp"] else S.cp_estimate
-    res = {"out": None, "exc": None, "objs": None, "cvrs": cvrs}
+    fn = asn_fn(case["bp"], case["exact"])
+    res = {"out": None, "exc": None, "objs": None, "cvrs": cvrs, "position_in_process": CALLS["n"]}
+    CALLS["n"] += 1
     try:
         with C.time_limit(20):      # a change that makes the search loop must not stall the check
+            run_before(case, contest, cvrs)
             if case.get("second"):
                 other = case["names"][(case["winner"] + 1) % case["n"]]
                 Rm.compute_raire_assertions(contest, cvrs, other, fn, False, agap=0)
@@ -429,10 +471,40 @@ def gen_case(rng, n=None, maxb=60):
         order, ok = list(reversed(rng.choice(orders))), "reversed"
     else:
         order, ok = list(range(n)), "identity"
-    return {"n": n, "names": rng.choice(NAME_SCHEMES)(n), "types": types, "nocontest": nocontest, "tot": tot,
+    return gen_before(rng, {"n": n, "names": rng.choice(NAME_SCHEMES)(n), "types": types, "nocontest": nocontest, "tot": tot,
             "winner": winner, "bp": rng.random() < 0.5, "exact": rng.random() < 0.5, "order": order,
             "second": rng.random() < 0.1, "log": rng.random() < 0.03, "tag": f"{style}/{wk}/hint-{ok}",
-            "possible_winners": winners}
+            "possible_winners": winners})
+
+
+def gen_before(rng, case, force=False):
+    """Attach a sequence of earlier calls (and a second IRV contest on the same cards) to a case."""
+    n = case["n"]
+    if not force and rng.random() >= 0.2:
+        return case
+    if rng.random() < 0.6:
+        case["c2types"] = gen_profile(rng, n, maxb=max(1, sum(k for _, k in case["types"])))[0]
+    seq = []
+    for _ in range(rng.randint(1, 3)):
+        k = rng.choice(["other_cvrs", "other_cvrs", "other_fn", "other_winner"] + (["other_contest"] * 2 if case.get("c2types") else []))
+        if k == "other_cvrs":
+            t2, _ = gen_profile(rng, n, maxb=30)
+            seq.append({"kind": k, "types": t2, "tot": sum(kk for _, kk in t2), "winner": rng.randrange(n), "bp": rng.random() < 0.5})
+        elif k == "other_fn":
+            seq.append({"kind": k})
+        elif k == "other_winner":
+            seq.append({"kind": k, "winner": rng.randrange(n)})
+        else:
+            seq.append({"kind": k, "winner": rng.randrange(n), "bp": rng.random() < 0.5})
+    case["before"] = seq
+    case["tag"] = case["tag"] + "/seq"
+    return case
+
+
+def sequence_cases(rng, k):
+    """Cases that are each a sequence of calls in one process; run FIRST, so that a failure of the first of them is
+    reproducible from its own replay (fresh process, same sequence)."""
+    return [gen_before(rng, gen_case(rng, n=rng.choice([3, 4, 4, 5])), force=True) for _ in range(k)]
 
 
 def multisets(items, k):
@@ -494,6 +566,8 @@ def case_json(case):
             "tot_ballots": case["tot"], "winner_index": case["winner"], "asn_func": ("bp" if case["bp"] else "cp") +
             ("_fraction" if case["exact"] else "_estimate"), "order_hint": case.get("order"),
             "second_call_on_same_objects": case.get("second", False), "log": case.get("log", False), "tag": case.get("tag"),
+            "calls_before_in_same_process": C.jsonable(case.get("before")), "second_contest_c2_on_same_cards": C.jsonable(case.get("c2types")),
+            "cases_run_earlier_in_this_process": o.get("position_in_process"),
             "impl_output": C.jsonable(o["out"]), "impl_exc": o["exc"]}
 
 
@@ -505,7 +579,10 @@ def case_from_json(j):
             "types": [(tuple(b), k) for b, k in j["ballot_types(indices into candidates, multiplicity)"]],
             "nocontest": j.get("cvrs_without_contest", 0), "tot": j["tot_ballots"], "winner": j["winner_index"],
             "bp": fn.startswith("bp"), "exact": fn.endswith("_fraction"), "order": j.get("order_hint"),
-            "second": j.get("second_call_on_same_objects", False), "log": j.get("log", False), "tag": "replay/" + "/".join((j.get("tag") or "").split("/")[1:])}
+            "second": j.get("second_call_on_same_objects", False), "log": j.get("log", False),
+            "before": [dict(b, types=[(tuple(x), k) for x, k in b["types"]]) if "types" in b else b
+                       for b in (j.get("calls_before_in_same_process") or [])] or None,
+            "c2types": [(tuple(x), k) for x, k in (j.get("second_contest_c2_on_same_cards") or [])] or None, "tag": "replay/" + "/".join((j.get("tag") or "").split("/")[1:])}
 
 
 def replay_cases(ctx):
@@ -535,12 +612,21 @@ def close(a, b, exact):
     return abs(a - b) <= 1e-9 * max(abs(a), abs(b), 1e-300)
 
 
+def failure_kind(o):
+    e = o["exc"] or ""
+    if e.startswith("ImplTimeout"):
+        return "call did not return within 20 s"
+    return e.split(":")[0][:60]
+
+
 def oracle_c04(case, want_brute=True):
     """C04 evaluated by brute force on the implementation's output.  Returns a list of short violation strings."""
     o, n, w = case["impl"], case["n"], case["winner"]
     bt = ballots_of(case)
     if o["out"] is None:
-        return [f"no assertion list returned for a valid contest ({(o['exc'] or '').split(':')[0][:60]})"]
+        if (o["exc"] or "").startswith("ImplTimeout: skipped"):
+            return []          # not run (earlier calls did not terminate): no verdict on this input; the tie reports it
+        return [f"no assertion list returned for a valid contest ({failure_kind(o)})"]
     bad = []
     out = o["out"]
     if out:
@@ -581,6 +667,10 @@ def oracle_c04(case, want_brute=True):
 def oracle_c15(case):
     """C15: largest returned difficulty vs brute-force minimax over all n! orders and all true assertions."""
     o = case["impl"]
+    if o["out"] is None and not (o["exc"] or "").startswith("ImplTimeout: skipped"):
+        # raised / did not return / returned something else: a violation of C15 when an audit is possible
+        poss, _ = brute(case["n"], ballots_of(case), case["tot"], case["winner"], case["bp"])
+        return [f"no assertion list returned although an audit is possible ({failure_kind(o)})"] if poss else []
     if not o["out"]:
         return []
     poss, best = brute(case["n"], ballots_of(case), case["tot"], case["winner"], case["bp"])
@@ -613,6 +703,10 @@ def stats(cases):
             inc("second call on the same Contest/cvrs")
         if c.get("log"):
             inc("log=True")
+        for b in c.get("before") or []:
+            inc("preceded in-process by " + b["kind"])
+        if c.get("c2types"):
+            inc("second IRV contest on the same cards")
         if c.get("nocontest"):
             inc("CVRs lacking the contest")
         if c["tot"] > sum(k for _, k in c["types"]) + c.get("nocontest", 0):
